@@ -91,6 +91,13 @@ def step_compare(run, c, obs_list, key, idmap=None, tol_scale=1.0, warmup=False,
         run.skip('reduced system singular / ill-conditioned (not well-posed)')
         return None
     g = (builder or GC.build_graph)(c, idmap)
+    info_scale = 1.0
+    if builder is None and run.replayed % 3 == 1:
+        # the Gauss-Newton step does not depend on a common positive factor of all information matrices (exact powers of two)
+        info_scale = [2.0 ** -40, 2.0 ** 30][run.replayed % 2]
+        for e in g._edges:
+            e.information = e.information.astype(float) * info_scale
+        run.notes['scaled_information_cases'] = run.notes.get('scaled_information_cases', 0) + 1
     idm = idmap or (lambda j: j)
     by_id = {v.id: v for v in g._vertices}
     listed = [by_id[idm(j)] for j in range(len(c['verts']))]          # the vertex objects in the order of the case (as supplied)
@@ -185,7 +192,8 @@ def step_compare(run, c, obs_list, key, idmap=None, tol_scale=1.0, warmup=False,
     else:
         run.dev(worst / scale)
     chi2 = GC.exact_chi2(obs_list[ci])
-    if not (abs(ret.initial_chi2 - chi2) <= 1e-9 * (1.0 + abs(chi2))):
+    chi2 = chi2 * info_scale
+    if not (abs(ret.initial_chi2 - chi2) <= 1e-9 * (info_scale + abs(chi2))):
         run.violation(dict(key, outcome='initial-chi2'), 'initial_chi2 %r, exact chi2 %r | case %r' % (ret.initial_chi2, chi2, c), dict(case=c))
     return g, exps[ci], ret, conv
 
